@@ -29,19 +29,20 @@ fn families(property: &str) -> Vec<Fam> {
         // the fault family is included: the statement is about subscribers that *stay healthy* while
         // others may fail, be evicted and be replaced by new registrations
         // … and the shutdown family: a message accepted before the channel closes must still be delivered
-        "C01" => vec![("pubsub", "c01", None), ("pubsub", "c01", None), ("pubsub", "c08", None), ("pubsub", "c16", Some(C01_CORE)), ("pubsub", "firehose", None)],
+        "C01" => vec![("pubsub", "c01", None), ("pubsub", "c01", None), ("pubsub", "c08", None), ("pubsub", "c16", Some(C01_CORE)), ("pubsub", "firehose", Some(C01_CORE))],
         // replier bind/unbind interleaved with requests and replies is part of the quantifier
         "C02" => vec![("reqrep", "c02", None), ("reqrep", "c02", None), ("reqrep", "c10", Some(C02_CORE)), ("reqrep", "c08", Some(C02_CORE)), ("reqrep", "firehose", None)],
         // mass failures (a client with dozens of streams loses its connection) live in the burst family
         "C08" => vec![("pubsub", "c08", None), ("reqrep", "c08", None), ("pubsub", "burst", None), ("reqrep", "burst", None)],
         // "all reachable router states" includes the states reached through faults and re-binding
-        "C09" => vec![("pubsub", "c09", None), ("reqrep", "c09", None), ("pubsub", "c09", None), ("reqrep", "c09", None), ("pubsub", "c08", Some(C09_CORE)), ("reqrep", "c08", Some(C09_CORE)), ("reqrep", "c10", Some(C09_CORE)), ("pubsub", "burst", None), ("reqrep", "burst", None), ("pubsub", "firehose", None), ("reqrep", "firehose", None)],
+        "C09" => vec![("pubsub", "c09", None), ("reqrep", "c09", None), ("pubsub", "c09", None), ("reqrep", "c09", None), ("pubsub", "c08", Some(C09_CORE)), ("reqrep", "c08", Some(C09_CORE)), ("reqrep", "c10", Some(C09_CORE)), ("pubsub", "burst", None), ("reqrep", "burst", None), ("pubsub", "firehose", Some(C09_CORE)), ("reqrep", "firehose", Some(C09_CORE))],
         // late repliers and successors that arrive in the middle of a registration storm
         "C10" => vec![("reqrep", "c10", None), ("reqrep", "burst", Some(C10_STORM))],
         // "accepted and then silently abandoned" also covers repliers that race for a topic: each must end up
         // served or explicitly refused (binding oracle), whatever the other repliers' sinks do
         "C11" => vec![("pubsub", "c11", None), ("reqrep", "c11", None), ("reqrep", "c10", Some(C11_REBIND)), ("pubsub", "burst", Some(C11_STORM)), ("reqrep", "burst", Some(C11_STORM))],
-        "C16" => vec![("pubsub", "c16", None), ("reqrep", "c16", None), ("pubsub", "c16", None), ("reqrep", "c16", None), ("pubsub", "burst", None), ("reqrep", "burst", None)],
+        // … and a shutdown that arrives in the middle of a busy scheduling step (firehose family: close while relaying)
+        "C16" => vec![("pubsub", "c16", None), ("reqrep", "c16", None), ("pubsub", "c16", None), ("reqrep", "c16", None), ("pubsub", "burst", None), ("reqrep", "burst", None), ("pubsub", "firehose", None)],
         _ => vec![],
     }
 }
